@@ -106,6 +106,37 @@ def run(ctx):
                             "PIN field prefix " + o.from_nibbles(o.pin_field4_nibbles(pin0, b"")[:16]).hex(), pf.hex())
                 else:
                     bad("format 4 encipher failed (" + how + ")", {"fn": "encipher_4", "args": [key.hex(), pin0, pan40]}, "OK", repr(e4))
+    # consecutive format 4 calls with PANs of the same length sharing their last 12 digits, their first digits, or everything
+    # but one digit (a field memoised on part of the PAN shows only on the SECOND call)
+    for ln in range(13, 20):
+        base = rnd_digits(rng, ln)
+        key = rng.randbytes(16)
+        others = [str((int(base[0]) + 1) % 10) + base[1:], base[: ln - 12] [::-1] + base[ln - 12:], base[:-1] + str((int(base[-1]) + 1) % 10),
+                  base[:5] + str((int(base[5]) + 7) % 10) + base[6:], base]
+        for pan4 in [base] + others:
+            for fn_ in ("pan", "block"):
+                evals += 1
+                if fn_ == "pan":
+                    g = call(pinblock.encode_pan_field_iso_4, pan4)
+                    exp = o.from_nibbles(o.pan_field4_nibbles(pan4))
+                    if g != ("OK", exp):
+                        bad("format 4 PAN field layout (call following a call with a neighbouring PAN)", {"fn": "pan_field_4", "args": [pan4], "previous": base}, exp.hex(), repr(g))
+                else:
+                    e4 = call(pinblock.encipher_pinblock_iso_4, key, "1234", pan4)
+                    if e4[0] == "OK":
+                        pf = o.D("aes", key, o.xor(o.D("aes", key, e4[1]), o.from_nibbles(o.pan_field4_nibbles(pan4))))
+                        if o.nibbles(pf)[:16] != o.pin_field4_nibbles("1234", b"")[:16]:
+                            bad("format 4 block is not E(E(PIN field) xor PAN field) (call following a call with a neighbouring PAN)",
+                                {"fn": "encipher_4", "args": [key.hex(), "1234", pan4], "previous": base}, "PIN field prefix", pf.hex())
+    for ln in range(13, 20):      # the same for formats 0 / 3 (PAN block memoised on part of the PAN)
+        base = rnd_digits(rng, ln)
+        for pan in [base, str((int(base[0]) + 1) % 10) + base[1:], base[:-1] + str((int(base[-1]) + 1) % 10), base[:-2] + str((int(base[-2]) + 1) % 10) + base[-1],
+                    base[:ln - 13] + str((int(base[ln - 13]) + 1) % 10) + base[ln - 12:], base]:
+            evals += 1
+            b0 = call(pinblock.encode_pinblock_iso_0, "4321", pan)
+            e0 = o.from_nibbles(o.xor_nibbles(o.pin_block_nibbles(0, "4321"), o.pan_block(pan)))
+            if b0 != ("OK", e0):
+                bad("format 0 layout (call following a call with a neighbouring PAN)", {"fn": "iso_0", "args": ["4321", pan], "previous": base}, e0.hex(), repr(b0))
     # AES keys that are also valid hex / decimal text (a binary key must never be re-interpreted as text)
     from harness import gens as G
     for ks in (16, 24, 32):
@@ -133,6 +164,9 @@ def run(ctx):
             bad("format 4 PAN field layout", {"fn": "pan_field_4", "args": [pan4]}, exp.hex(), repr(g))
         lines.append(core.model_line("encode_pan_field_iso_4", (pan4,)))
         expect.append("OK " + core.show(exp))
+    from harness.props.pinblock_common import threaded_fixed_pairs
+    dist["format_0_3_calls_in_tight_threaded_loops"] = threaded_fixed_pairs(ctx.rng, viol, iters=ctx.n(12000, 50000))
+    evals += dist["format_0_3_calls_in_tight_threaded_loops"]
     from harness.props.pinblock_common import threaded_encoders
     dist["encoder_calls_under_threads"] = threaded_encoders(ctx.rng, viol)
     evals += dist["encoder_calls_under_threads"]
